@@ -1,2 +1,13 @@
-(* C02 - property statements (theorems are being added) *)
-From Asherah Require Import Envelope.Session.
+(* C02 - a record is handed out only once its key chain is durable.
+   FULL STATEMENT (decided by exhaustive-style fault enumeration + correspondence today): at every EncryptRet(Ok r),
+   under every fault plan, the IK row r names and its SK row are in the store and a fresh process decrypts r.
+   PROVED here (partial): for every history and every SDK operation, under every fault plan, the store only grows
+   by appending rows at absent keys - no row is ever modified, removed or duplicated (so durability, once
+   established, is permanent and a crash after any operation leaves a well-formed store). *)
+From Asherah Require Import Envelope.Session Envelope.Frame Envelope.FrameInst.
+
+Theorem C02_store_append_only_partial : forall h o, sdk_op o = true ->
+  (exists ext, w_store (h_world (snd (hstep h o))) = w_store (h_world h) ++ ext) /\
+  (NoDup (store_keys (w_store (h_world h))) -> NoDup (store_keys (w_store (h_world (snd (hstep h o)))))).
+Proof. exact sdk_store_append_only. Qed.
+Print Assumptions C02_store_append_only_partial.
